@@ -223,6 +223,9 @@ func showAttrs(m map[string]interface{}) string {
 type attrTarget interface {
 	Set(st int, id uint64, m map[string]interface{}) error
 	SetBulk(st int, m map[uint64]map[string]interface{}) error
+	// BulkQuery sends several set calls (ids may repeat) as ONE query; on the plain
+	// store, which has no such thing, they are applied one after the other.
+	BulkQuery(st int, calls []attrCall) error
 	// Read returns the attributes of id as the code hands them to its caller.
 	Read(st int, id uint64) (map[string]interface{}, error)
 	Reopen(st int) error
@@ -231,6 +234,37 @@ type attrTarget interface {
 	// reports as differing from s2, and the plain block-id list when available.
 	Diff(s1, s2 int) (ids map[uint64]map[string]interface{}, blocks []uint64, err error)
 	Close()
+}
+
+// attrCall is one SetRowAttrs / SetColumnAttrs call of a query.
+type attrCall struct {
+	ID    uint64
+	Attrs map[string]interface{}
+}
+
+func (t *storeTarget) BulkQuery(st int, calls []attrCall) error {
+	for _, c := range calls {
+		if err := t.stores[st].SetAttrs(c.ID, c.Attrs); err != nil {
+			return err
+		}
+	}
+	return nil
+}
+
+// one query text: only SetRowAttrs calls -> executeBulkSetRowAttrs merges them per
+// row; `single` appends another call so that every SetRowAttrs runs on its own;
+// SetColumnAttrs calls always run one by one.
+func (t *queryTarget) BulkQuery(st int, calls []attrCall) error {
+	var q []string
+	for _, c := range calls {
+		q = append(q, t.setCall(st, c.ID, c.Attrs))
+	}
+	text := strings.Join(q, " ")
+	if t.single && !t.cols {
+		text += " Count(Row(other=0))"
+	}
+	_, err := t.query(st, text, false)
+	return err
 }
 
 // -- boltdb store, directly
